@@ -150,14 +150,29 @@ func (w *h20Widget) Size() (int, int)                { return w.w, w.h }
 // H20_box: children are placed in order along the axis, disjoint, inside the
 // parent; each gets at least its preferred extent when space suffices; the
 // surplus is distributed exactly and in proportion to the fill factors.
-func H20_box() {
+func H20_box() { h20Box(false) }
+
+// H20_boxc: the same judgement with every size drawn from a small menu (no floating-point
+// solver queries: the engine folds the layout arithmetic to constants and executes every
+// combination) - the quick-tier form, and the one that reaches three and four children.
+func H20_boxc() { h20Box(true) }
+
+func h20Box(concrete bool) {
 	vsymSetenv("VSYM_CLOCK", "concrete")
-	n := 1 + vsymChoice("children", vsymParam("maxchildren", 2))
+	n := vsymParam("minchildren", 1) + vsymChoice("children", vsymParam("maxchildren", 2)-vsymParam("minchildren", 1)+1)
 	horiz := vsymChoice("orient", 2) == 0
 	fillMenu := []float64{0, 1, 2, 0.5, 3}[:vsymParam("fillmenu", 5)]
-	pw, ph := vsymInt("pw"), vsymInt("ph")
+	// sizes: symbolic (floating-point queries: thorough tier), or - job parameter concrete=1 -
+	// from small menus, which the engine folds to constants (every combination is executed)
+	var pw, ph int
 	lim := vsymParam("maxsize", 4096)
-	vsymAssume(vsymAnd(vsymAnd(pw >= 0, pw <= lim), vsymAnd(ph >= 0, ph <= lim)))
+	if concrete {
+		pw = vsymChoice("pw", vsymParam("extents", 14))
+		ph = pw
+	} else {
+		pw, ph = vsymInt("pw"), vsymInt("ph")
+		vsymAssume(vsymAnd(vsymAnd(pw >= 0, pw <= lim), vsymAnd(ph >= 0, ph <= lim)))
+	}
 	parent := &h20Rec{w: pw, h: ph}
 	var b *BoxLayout
 	if horiz {
@@ -170,8 +185,13 @@ func H20_box() {
 	fills := make([]float64, n)
 	totf := 0.0
 	for i := 0; i < n; i++ {
-		sz := vsymInt("size")
-		vsymAssume(vsymAnd(sz >= 0, sz <= lim))
+		var sz int
+		if concrete {
+			sz = 1 + vsymChoice("size", vsymParam("sizes", 2))
+		} else {
+			sz = vsymInt("size")
+			vsymAssume(vsymAnd(sz >= 0, sz <= lim))
+		}
 		ws[i] = &h20Widget{w: sz, h: sz}
 		fills[i] = fillMenu[vsymChoice("fill", len(fillMenu))]
 		totf += fills[i]
